@@ -131,9 +131,19 @@ class Deduping(DNAGenerator):
     self.generator.feedback(dna, reward)
     self._add_dna_to_cache(dna, reward)
 
+  def recover(self, history) -> None:
+    # The inner generator recovers through its own `recover` (which maintains
+    # its counters and may be overridden, e.g. by `Evolution`).
+    history = list(history)
+    self.generator.recover(history)
+    super().recover(history)
+
   def _replay(self, trial_id: int, dna: DNA, reward: Any) -> None:
-    self.generator._replay(trial_id, dna, reward)  # pylint: disable=protected-access
-    self._add_dna_to_cache(dna, reward)
+    del trial_id
+    # Same accounting as `_propose`/`_feedback`: when feedback is needed, only
+    # DNAs that were fed back count as duplicates.
+    if reward is not None or not self.needs_feedback:
+      self._add_dna_to_cache(dna, reward)
 
   def _add_dna_to_cache(
       self, dna: DNA, reward: Union[None, float, Tuple[float]]) -> None:
